@@ -26,12 +26,13 @@ MOD = __name__
 META = {
     "rule": "L1: complete atom tables - ordered pairs of all python_version/python_full_version atoms (7 operators + wildcards "
     "+ in/not in lists, both operand orders), pairs and triples of atoms on one string variable (==, !=, in, not in, "
-    "literal-on-the-left), on extra (sets) and on platform_release, each evaluated on its whole value grid; L2: Hypothesis "
+    "literal-on-the-left), on extra (sets) and on platform_release, post-release literals as bounds against every comparison on their neighbours (post-bound-pairs), each evaluated on its whole value grid; L2: Hypothesis "
     "operand expressions. Non-trivial = the result is simpler than the naive conjunction/disjunction of the operands (some "
     "merge or simplification happened) and its truth table is not constant; distinct by operand text.",
     "assumptions": [
         "atom truth from packaging.Marker (extra against a set: PEP 685 reference); environments are final interpreters with python_version = major.minor",
         "M4 (known finding): rows where python_version is a substring but not an item of an in/not-in list are excluded and counted",
+        "S4a (known finding): cases holding `V < X.postN` and an inclusive lower bound lo < X.postN on the same version variable are excluded and counted",
     ],
 }
 
